@@ -283,6 +283,10 @@ func buildSCloud(exports []types.ExportSegment) ([]types.OpaqueHash, error) {
 	fullSegments := make([]types.ExportSegment, 0, len(exports)+len(pagedProof))
 	fullSegments = append(fullSegments, exports...)
 	fullSegments = append(fullSegments, pagedProof...)
+	if len(fullSegments) == 0 {
+		// no exports: every shard's segment list is empty and M_B of an empty sequence is the zero hash
+		return make([]types.OpaqueHash, types.TotalShards), nil
+	}
 
 	groupShards := make([][][]byte, len(fullSegments))
 	for i := range fullSegments {
